@@ -791,7 +791,7 @@ public:
 
         auto* f = data() + pos;
         auto* l = f + etl::min(count, size() - pos);
-        detail::str_replace(f, l, str.begin(), str.end());
+        replace_chars(f, l, str.begin(), str.end());
         return *this;
     }
 
@@ -802,7 +802,7 @@ public:
     {
         auto* f = to_mutable_iterator(first);
         auto* l = to_mutable_iterator(last);
-        detail::str_replace(f, l, str.begin(), str.end());
+        replace_chars(f, l, str.begin(), str.end());
         return *this;
     }
 
@@ -817,7 +817,7 @@ public:
         auto* l        = f + etl::min(count, size() - pos);
         auto const* sf = etl::next(str.begin(), static_cast<etl::ptrdiff_t>(pos2));
         auto const* sl = etl::next(sf, static_cast<etl::ptrdiff_t>(etl::min(count2, str.size() - pos2)));
-        detail::str_replace(f, l, sf, sl);
+        replace_chars(f, l, sf, sl);
         return *this;
     }
 
@@ -827,7 +827,7 @@ public:
 
         auto* f = next(data(), pos);
         auto* l = next(f, min(count, size() - pos));
-        detail::str_replace(f, l, str, next(str, count2));
+        replace_chars(f, l, str, next(str, count2));
         return *this;
     }
 
@@ -836,7 +836,7 @@ public:
     {
         auto* f = to_mutable_iterator(first);
         auto* l = to_mutable_iterator(last);
-        detail::str_replace(f, l, str, next(str, count2));
+        replace_chars(f, l, str, next(str, count2));
         return *this;
     }
 
@@ -846,7 +846,7 @@ public:
 
         auto* f = next(data(), pos);
         auto* l = next(f, min(count, size() - pos));
-        detail::str_replace(f, l, str, next(str, strlen(str)));
+        replace_chars(f, l, str, next(str, strlen(str)));
         return *this;
     }
 
@@ -854,7 +854,7 @@ public:
     {
         auto* f = to_mutable_iterator(first);
         auto* l = to_mutable_iterator(last);
-        detail::str_replace(f, l, str, next(str, strlen(str)));
+        replace_chars(f, l, str, next(str, strlen(str)));
         return *this;
     }
 
@@ -1276,6 +1276,15 @@ private:
         TETL_PRECONDITION(newSize <= Capacity);
         _storage.set_size(newSize);
         unsafe_at(newSize) = Char(0);
+    }
+
+    /// Overwrites [f, l) with the leading characters of [sf, sl). The replacement may lie inside this string
+    /// (s.replace(1, 3, s.data(), 3)): it is copied out before the first character is overwritten.
+    constexpr auto replace_chars(iterator f, iterator l, const_pointer sf, const_pointer sl) -> void
+    {
+        auto const len = etl::min(static_cast<size_type>(l - f), static_cast<size_type>(sl - sf));
+        auto const tmp = basic_inplace_string{sf, len};
+        detail::str_replace(f, l, tmp.begin(), tmp.end());
     }
 
     constexpr auto insert_impl(iterator pos, const_pointer text, size_type count) -> void
